@@ -121,9 +121,10 @@ func (r *sharedResource) WithMaxInterval(val uint32) SharedResource {
 // the limit of 500 partitions.
 func (r *sharedResource) MaxCapacity() uint32 {
 	sharedCapacity := atomic.LoadUint32(&r.sharedCapacity)
-	max := r.factor * maxPartitions
-	if sharedCapacity > max {
-		sharedCapacity = max
+	// NOTE: the product is computed in 64 bits; factor x 500 does not fit into a uint32 for a factor above 8,589,934
+	max := uint64(r.factor) * maxPartitions
+	if uint64(sharedCapacity) > max {
+		sharedCapacity = uint32(max)
 	}
 	return sharedCapacity + atomic.LoadUint32(&r.reservedCapacity)
 }
